@@ -67,6 +67,45 @@ Substring(s, start, len) ==     \* start: integer, len: integer or ToEnd
   ELSE IF len < 1 \/ from + len - 1 > n THEN Unspec                  \* length running over the end / not positive
   ELSE Str(SubSeq(s, from, from + len - 1))
 
+\* number(from, grouping separator, decimal separator): the text with the grouping separators removed and the decimal
+\* separator read as the decimal point must be a numeric literal  [-] digits [. digits]  |  [-] . digits
+IsDg(c) == c >= 48 /\ c <= 57
+RECURSIVE Without(_, _), DigitsVal(_, _), AllDg(_, _, _)
+Without(s, g) == IF s = <<>> THEN <<>> ELSE (IF Head(s) = g THEN <<>> ELSE <<Head(s)>>) \o Without(Tail(s), g)
+AllDg(s, a, b) == a > b \/ (IsDg(s[a]) /\ AllDg(s, a + 1, b))
+DigitsVal(s, k) == IF k = 0 THEN 0 ELSE DigitsVal(s, k - 1) * 10 + (s[k] - 48)
+PosOf(s, c) == IF \E k \in 1..Len(s) : s[k] = c THEN CHOOSE k \in 1..Len(s) : s[k] = c /\ \A j \in 1..(k - 1) : s[j] # c ELSE 0
+\* groups of the integer part are regular: the first has 1..3 digits, the others exactly 3
+RECURSIVE GroupsOk(_, _, _, _)
+GroupsOk(s, g, k, run) ==       \* scanning from the right end of the integer part
+  IF k = 0 THEN run >= 1 /\ run <= 3
+  ELSE IF s[k] = g THEN run = 3 /\ GroupsOk(s, g, k - 1, 0)
+  ELSE IF IsDg(s[k]) THEN GroupsOk(s, g, k - 1, run + 1)
+  ELSE k = 1 /\ s[1] = 45 /\ run >= 1 /\ run <= 3
+NumberOf(cp, g, d) ==
+  LET dec == IF d = 0 THEN 46 ELSE d
+      dp == PosOf(cp, dec)
+      intPart == IF dp = 0 THEN cp ELSE SubSeq(cp, 1, dp - 1)
+      hasG == g # 0 /\ \E k \in 1..Len(cp) : cp[k] = g
+      t0 == IF g = 0 THEN cp ELSE Without(cp, g)
+      t == [k \in 1..Len(t0) |-> IF t0[k] = dec THEN 46 ELSE t0[k]]
+      neg == t # <<>> /\ t[1] = 45
+      u == IF neg THEN Tail(t) ELSE t
+      p == PosOf(u, 46)
+      ip == IF p = 0 THEN u ELSE SubSeq(u, 1, p - 1)
+      fp == IF p = 0 THEN <<>> ELSE SubSeq(u, p + 1, Len(u))
+      digits == ip \o fp
+  IN
+  IF \E k \in 1..Len(cp) : cp[k] \in {69, 101} THEN Unspec                                  \* exponent notation: open
+  ELSE IF cp # <<>> /\ (cp[1] = 43 \/ cp[Len(cp)] = dec) THEN Unspec                         \* a leading plus sign, a trailing decimal separator: lenient forms, open
+  ELSE IF d # 0 /\ d # 46 /\ g # 46 /\ (\E k \in 1..Len(cp) : cp[k] = 46) THEN Unspec       \* a period although the decimal separator is a comma
+  ELSE IF d = 0 /\ g = 46 /\ FALSE THEN Unspec
+  ELSE IF hasG /\ (g = dec \/ ~GroupsOk(intPart, g, Len(intPart), 0) \/ (dp # 0 /\ \E k \in dp..Len(cp) : cp[k] = g)) THEN Unspec   \* irregular grouping: open
+  ELSE IF u = <<>> \/ ~AllDg(digits, 1, Len(digits)) \/ digits = <<>> THEN Null
+  ELSE IF p # 0 /\ fp = <<>> THEN Null
+  ELSE IF Len(digits) > 8 THEN Unspec                                                         \* (beyond the integers of this specification)
+  ELSE LET m == DigitsVal(digits, Len(digits)) IN Num(IF neg THEN 0 - m ELSE m, 0 - Len(fp))
+
 BifApply(name, args) ==
   LET n == Len(args)
       a1 == IF n >= 1 THEN args[1] ELSE Null
@@ -189,7 +228,41 @@ BifApply(name, args) ==
         ELSE IF a1.k = "bool" THEN Str(IF a1.b THEN <<116, 114, 117, 101>> ELSE <<102, 97, 108, 115, 101>>)
         ELSE IF a1.k = "null" THEN Null
         ELSE Unspec                                                   \* numbers: C07; composite values: format not settled
+  [] name = "number" ->
+        IF n # 3 THEN Unspec                                           \* (other arities: not in the table)
+        ELSE IF a1.k # "str" THEN Null
+        ELSE IF ~(a2.k = "null" \/ (a2.k = "str" /\ a2.cp \in {<<32>>, <<44>>, <<46>>})) THEN Null
+        ELSE IF ~(a3.k = "null" \/ (a3.k = "str" /\ a3.cp \in {<<44>>, <<46>>})) THEN Null
+        ELSE IF a2.k = "str" /\ a3.k = "str" /\ a2.cp = a3.cp THEN Null
+        ELSE NumberOf(a1.cp, IF a2.k = "str" THEN a2.cp[1] ELSE 0, IF a3.k = "str" THEN a3.cp[1] ELSE 0)
   [] OTHER -> Unspec
+
+\* the regular-expression built-ins, for a pattern given with its syntax tree (Regex.tla); flags other than "" are not specified
+Re == INSTANCE Regex
+BifApplyRe(name, args, re) ==
+  LET n == Len(args)
+      a1 == IF n >= 1 THEN args[1] ELSE Null
+      a2 == IF n >= 2 THEN args[2] ELSE Null
+      a3 == IF n >= 3 THEN args[3] ELSE Null
+      a4 == IF n >= 4 THEN args[4] ELSE Null
+      strs(k) == \A j \in 1..k : args[j].k = "str"
+  IN
+  IF n >= 2 /\ a2.k = "str" /\ a2.cp # Re!Render(re) THEN Unspec            \* (the tree does not belong to the pattern: not a case)
+  ELSE CASE name = "matches" ->
+              IF n < 2 \/ n > 3 THEN Null ELSE IF ~strs(n) THEN Null
+              ELSE IF n = 3 /\ a3.cp # <<>> THEN Unspec
+              ELSE Bool(Re!Matches(re, a1.cp))
+         [] name = "replace" ->
+              IF n < 3 \/ n > 4 THEN Null ELSE IF ~strs(n) THEN Null
+              ELSE IF n = 4 /\ a4.cp # <<>> THEN Unspec
+              ELSE IF Re!MatchesEmptyIn(re, a1.cp) THEN Unspec              \* an expression matching the empty string: an error in XPath
+              ELSE IF ~Re!RepOk(a3.cp, 1, 3) THEN Unspec                    \* malformed replacement text: an error in XPath
+              ELSE Str(Re!Replace(re, a1.cp, a3.cp))
+         [] name = "split" ->
+              IF n # 2 THEN Null ELSE IF ~strs(2) THEN Null
+              ELSE IF Re!MatchesEmptyIn(re, a1.cp) THEN Unspec
+              ELSE LET ps == Re!Split(re, a1.cp) IN List([k \in 1..Len(ps) |-> Str(ps[k])])
+         [] OTHER -> Unspec
 
 ParamNames(name) ==
   CASE name = "substring" -> <<"string", "start position", "length">>
